@@ -36,7 +36,7 @@ func c16(c *core.Ctx) {
 	} else {
 		set := sets[0]
 		arg := ssax.Args(set.Instr)[0]
-		c.Check(fl.OnlyFrom(arg, eh.Params[2].Name()+".Id"), "C16.R1", "eventStreamHandler|seen-key", ipos(c, set.Instr), "keyed by the event id", "the seen-set is not consulted with the id of the event being handled")
+		c.Check(fl.OnlyFrom(arg, paramOf(eh, 2).Name()+".Id"), "C16.R1", "eventStreamHandler|seen-key", ipos(c, set.Instr), "keyed by the event id", "the seen-set is not consulted with the id of the event being handled")
 		r := ssax.Analyze(eh, ssax.ReachOpts{Pins: map[ssa.Value]ssax.AV{set.Instr.Value(): ssax.AVTrue}, Start: set.Instr})
 		for i, e := range effects {
 			c.Check(!r.Reachable(e.Instr), "C16.R1", fmt.Sprintf("eventStreamHandler|duplicate|%s#%d", e.Callee.Name, i), ipos(c, e.Instr), "not applied for an event already seen", "an event whose id was already applied is applied again ("+e.Callee.Name+")")
@@ -51,7 +51,7 @@ func c16(c *core.Ctx) {
 			}
 			good := false
 			for _, st := range storesToField(eh, fedPkg+".Ack.EventId") {
-				if fl.OnlyFrom(st.Val, eh.Params[2].Name()+".Id") && ssax.AnyIn(ssax.Backward(ret.Results[0]), func(v ssa.Value) bool { return v == st.Addr.(*ssa.FieldAddr).X }) {
+				if fl.OnlyFrom(st.Val, paramOf(eh, 2).Name()+".Id") && ssax.AnyIn(ssax.Backward(ret.Results[0]), func(v ssa.Value) bool { return v == st.Addr.(*ssa.FieldAddr).X }) {
 					good = true
 				}
 			}
@@ -94,7 +94,7 @@ func c16(c *core.Ctx) {
 		})
 		ins := 0
 		ssax.Instrs(lru, false, func(_ *ssa.Function, in ssa.Instruction) {
-			if mu, ok := in.(*ssa.MapUpdate); ok && mu.Key == ssa.Value(lru.Params[1]) {
+			if mu, ok := in.(*ssa.MapUpdate); ok && mu.Key == ssa.Value(paramOf(lru, 1)) {
 				ins++
 			}
 		})
@@ -379,7 +379,7 @@ func c16(c *core.Ctx) {
 	okAck := false
 	for _, rm := range ssax.Calls(ak, false, ssax.ByName("(*container/list.List).Remove")) {
 		for _, g := range ssax.Guards(rm.Instr) {
-			if bo, ok := g.Cond.(*ssa.BinOp); ok && cmpUnder(bo, g.Branch) == token.LEQ && ssax.LoadOfField(fedPkg+".Event.Id")(bo.X) && bo.Y == ssa.Value(ak.Params[1]) {
+			if bo, ok := g.Cond.(*ssa.BinOp); ok && cmpUnder(bo, g.Branch) == token.LEQ && ssax.LoadOfField(fedPkg+".Event.Id")(bo.X) && bo.Y == ssa.Value(paramOf(ak, 1)) {
 				okAck = true
 			}
 		}
